@@ -348,10 +348,12 @@ def main():
             m = find(sync_client, 'SnmpSession', meth)
             if m is None:
                 raise Unsupported("sync SnmpSession.%s is gone" % meth)
-            calls = [n for n in ast.walk(m) if isinstance(n, ast.Call) and isinstance(n.func, ast.Name) and n.func.id == itname]
-            if not calls:
+            # every place of the sync client that builds this iterator (getnext / getbulk, and anything else that does)
+            calls = [(mm.name, n) for _c, mm in methods(sync_client) for n in ast.walk(mm)
+                     if isinstance(n, ast.Call) and isinstance(n.func, ast.Name) and n.func.id == itname]
+            if not any(mn == meth for mn, _ in calls):
                 raise Unsupported("sync SnmpSession.%s does not build a %s" % (meth, itname))
-            for c in calls:
+            for meth, c in calls:
                 arg = None
                 if len(c.args) > idx:
                     arg = c.args[idx]
@@ -361,6 +363,67 @@ def main():
                 ok = arg is not None and attr_chain(arg) == ['self', '_policer']
                 ob("sync:W_%s_hands_the_policer_to_%s" % (meth, itname), "sync_client/client.py :: SnmpSession.%s" % meth, ok,
                    "sync_client/client.py:%d" % c.lineno, "%s(...) at line %d is not given self._policer as its policer" % (itname, c.lineno))
+        # ---- B: frame of the bulk buffer (C05 / C06): the iterator yields what the socket returned, nothing is added to it ----------
+        for f, itname, meth in (('sync_client/getbulk.py', 'GetBulkIter', '__next__'), ('async_client/client.py', 'GetBulkIter', '__anext__')):
+            m = find(trees[f], itname, meth)
+            if m is None:
+                raise Unsupported("%s %s.%s is gone" % (f, itname, meth))
+            bad = []
+            n_assign = 0
+            for n in ast.walk(m):
+                if isinstance(n, (ast.Assign, ast.AugAssign, ast.AnnAssign)):
+                    tgts = n.targets if isinstance(n, ast.Assign) else [n.target]
+                    for t in tgts:
+                        if attr_chain(t) == ['self', '_buffer']:
+                            v = n.value
+                            if isinstance(v, ast.Await):
+                                v = v.value
+                            c = attr_chain(v.func) if isinstance(v, ast.Call) else None
+                            from_socket = bool(c) and ((len(c) >= 3 and c[-2] == '_sock' and c[-1] == 'get_bulk') or c[-1] == '_recv')
+                            if isinstance(n, ast.Assign) and from_socket:
+                                n_assign += 1
+                            else:
+                                bad.append(n.lineno)
+                if isinstance(n, ast.Call):
+                    c = attr_chain(n.func)
+                    if c and len(c) >= 3 and c[-3:-1] == ['self', '_buffer'] and c[-1] != 'pop':
+                        bad.append(n.lineno)
+            ob("%s:B_%s_buffer_holds_only_what_the_socket_returned" % ('sync' if f.startswith('sync') else 'async', itname),
+               "%s :: %s.%s" % (f, itname, meth), n_assign >= 1 and not bad, "%s:%d" % (f, m.lineno),
+               "self._buffer is changed by something else than the assignment of the socket result / pop(0) at line(s) %s" % bad)
+        # ---- P: pass-through (C07 / C02): get / get_many hand the caller exactly what the socket returned -----------------------
+        def is_sock_call(e, names):
+            if isinstance(e, ast.Await):
+                e = e.value
+            if not isinstance(e, ast.Call):
+                return False
+            c = attr_chain(e.func)
+            if c and len(c) >= 3 and c[-2] == '_sock' and c[-1] in names:
+                return True
+            # async: await self._recv(self._sock.recv_x)
+            if c and c[-1] == '_recv' and len(e.args) == 1:
+                a = attr_chain(e.args[0])
+                return bool(a) and len(a) >= 3 and a[-2] == '_sock' and a[-1] in names
+            return False
+        for f, kind, table in (('sync_client/client.py', 'sync', {'get': {'get'}, 'get_many': {'get_many'}}),
+                               ('async_client/client.py', 'async', {'get': {'recv_get'}, 'get_many': {'recv_get_many'}})):
+            for meth, names in table.items():
+                m = find(trees[f], 'SnmpSession', meth)
+                if m is None:
+                    raise Unsupported("%s SnmpSession.%s is gone" % (f, meth))
+                own = []   # return statements of the method itself (not of nested functions)
+
+                def walk(n):
+                    for c in ast.iter_child_nodes(n):
+                        if isinstance(c, (ast.FunctionDef, ast.AsyncFunctionDef, ast.Lambda)):
+                            continue
+                        if isinstance(c, ast.Return):
+                            own.append(c)
+                        walk(c)
+                walk(m)
+                ok = len(own) >= 1 and all(r.value is not None and is_sock_call(r.value, names) for r in own)
+                ob("%s:P_%s_returns_the_socket_result_unchanged" % (kind, meth), "%s :: SnmpSession.%s" % (f, meth), ok, "%s:%d" % (f, m.lineno),
+                   "SnmpSession.%s does not return the result of the socket call as it is" % meth)
         for f in ('sync_client/client.py', 'async_client/client.py'):
             init = find(trees[f], 'SnmpSession', '__init__')
             if init is None:
